@@ -785,13 +785,33 @@ def rule_whole_proof_anchor(ctx, cfg='prod-all', rule='RF-C'):
         return sorted(k for k in hashed if k not in used and b.local_ty(k).lstrip('&').strip().endswith('rug::Integer'))
 
     callers = {}
+    creators = {}
     for p, b in prog.bodies.items():
-        if not p.startswith('cl03::range_proof::') or b.kind == 'Closure':
+        if not p.startswith('cl03::range_proof::'):
             continue
         for bi, t in b.calls():
             tgt = local_target(eng, t)
             if tgt:
                 callers.setdefault(tgt, []).append((b, bi, t))
+        for bi, st in b.stmts():
+            if st['k'] == 'assign' and st['rv']['k'] == 'agg' and st['rv'].get('ak') == 'closure':
+                creators[st['rv']['name']] = (b, st['rv'])
+
+    def trace(cb, arg):
+        """(function, parameter) the argument is, unchanged - through the captures of a closure into the function that creates it"""
+        cfd = eng.fndep(cb.path)
+        for _ in range(4):
+            if cb.kind == 'Closure' and arg.get('k') in ('copy', 'move'):
+                root, path = cfd.resolve_place(arg['pl'])
+                if root == 1 and len(path) >= 1 and str(path[0]).isdigit() and cb.path in creators:
+                    pb, rv = creators[cb.path]
+                    if int(path[0]) < len(rv['ops']) and len(path) == 1:
+                        cb, arg = pb, rv['ops'][int(path[0])]
+                        cfd = eng.fndep(cb.path)
+                        continue
+            break
+        pk, chain, why = _trace_identity(cfd, cb, arg)
+        return cb, cfd, arg, pk, why
     n = 0
     for leaf, side in ((RP + 'verify_large_interval_specific', 'verifier'), (RP + 'proof_large_interval_specific', 'prover')):
         if leaf not in prog.bodies:
@@ -808,14 +828,13 @@ def rule_whole_proof_anchor(ctx, cfg='prod-all', rule='RF-C'):
             for (cb, bi, t) in callers.get(fn, []):
                 if k - 1 >= len(t['args']):
                     continue
-                cfd = eng.fndep(cb.path)
-                pk, chain, why = _trace_identity(cfd, cb, t['args'][k - 1])
-                if pk is not None:
+                cb, cfd, arg, pk, why = trace(cb, t['args'][k - 1])
+                if pk is not None and cb.kind != 'Closure':
                     if (cb.path, pk) not in S:
                         S.add((cb.path, pk))
                         work.append((cb.path, pk))
                 else:
-                    tops.append((cb, cfd, bi, t, t['args'][k - 1], why))
+                    tops.append((cb, cfd, bi, t, arg, why))
         if side == 'verifier':
             for (cb, cfd, bi, t, arg, why) in tops:
                 n += 1
